@@ -6992,4 +6992,285 @@ theorem kernel_wic_step (ud rnd w : Int) (i : Nat) (ws : List Int) (hud : 0 < ud
   simp only [h3, wicLoop, decide_eq_true_eq]
 
 
+
+/-! ### wave 2: the `treesim` wrapper layer — replicates read consecutive segments of one generator stream -/
+namespace Aux
+
+theorem bdIter_cont_consumes (P : BDParams) (s s' : BDState) (ds ds' : List Draw) (h : bdIter P s ds = .ok (.cont s' ds')) :
+    ds'.length < ds.length := by
+  obtain ⟨pre, hp, _⟩ := bdIter_stream P s ds _ h
+  simp only [Step.rest] at hp
+  unfold bdIter at h
+  split at h
+  · simp at h
+  · split at h
+    · simp at h
+    · rename_i w ds1
+      -- the pass starts by reading the waiting time
+      cases pre with
+      | nil =>
+        exfalso
+        simp at hp
+        -- ds' = .w w :: ds1, yet every continuing pass drops at least the waiting time
+        split at h
+        · simp at h
+        · simp only at h
+          split at h
+          · obtain ⟨pre', hp', _⟩ := bdEvent_stream _ _ _ _ h
+            simp only [Step.rest] at hp'
+            have : ds1.length = pre'.length + ds'.length := by rw [hp']; simp
+            rw [← hp] at this; simp at this; omega
+          · simp at h
+            have := h.2
+            rw [← hp] at this; simp at this
+      | cons x xs => rw [hp]; simp; omega
+    · simp at h
+
+theorem bdLoop_stream_bound (P : BDParams) : ∀ (f : Nat) (s s' : BDState) (ds ds' : List Draw), bdLoop P f s ds = .ok (s', ds') →
+    ∃ pre, ds = pre ++ ds' ∧ ∀ tl f', pre.length + 1 ≤ f' → bdLoop P f' s (pre ++ tl) = .ok (s', tl) := by
+  intro f
+  induction f with
+  | zero => intro s s' ds ds' h; simp [bdLoop] at h
+  | succ f ih =>
+    intro s s' ds ds' h
+    unfold bdLoop at h
+    split at h
+    · simp at h
+    · rename_i s1 ds1 hit
+      simp at h
+      obtain ⟨rfl, rfl⟩ := h
+      obtain ⟨pre, hp, hall⟩ := bdIter_stream _ _ _ _ hit
+      refine ⟨pre, by simpa [Step.rest] using hp, ?_⟩
+      intro tl f' hf
+      obtain ⟨f'', rfl⟩ : ∃ f'', f' = f'' + 1 := ⟨f' - 1, by omega⟩
+      unfold bdLoop
+      simp [hall tl, Step.setRest]
+    · rename_i s1 ds1 hit
+      obtain ⟨pre1, hp1, hall1⟩ := bdIter_stream _ _ _ _ hit
+      obtain ⟨pre2, hp2, hall2⟩ := ih _ _ _ _ h
+      simp only [Step.rest] at hp1
+      have hlen := bdIter_cont_consumes P s s1 ds ds1 hit
+      have h1 : 1 ≤ pre1.length := by
+        have := congrArg List.length hp1; simp at this; omega
+      refine ⟨pre1 ++ pre2, by rw [hp1, hp2, List.append_assoc], ?_⟩
+      intro tl f' hf
+      obtain ⟨f'', rfl⟩ : ∃ f'', f' = f'' + 1 := ⟨f' - 1, by simp at hf; omega⟩
+      unfold bdLoop
+      rw [List.append_assoc, hall1 (pre2 ++ tl)]
+      simp only [Step.setRest]
+      exact hall2 tl f'' (by simp at hf; omega)
+end Aux
+
+/-- **`birth_death_tree` on a generator stream is the simulator on the segment it reads**: a run that succeeds on a stream and
+leaves `rest` has read `used`, and the run on exactly `used` (the definition the driver runs, `bdRun`) returns the same tree -/
+theorem bdRunS_direct (P : BDParams) (n0 : Nat) (ds rest : List Draw) (r : SimResult) (h : bdRunS P n0 ds = .ok (r, rest)) :
+    ∃ used, ds = used ++ rest ∧ bdRun P n0 used = .ok r := by
+  unfold bdRunS at h
+  split at h
+  · simp at h
+  · rename_i s rest1 hl
+    obtain ⟨pre, hp, hall⟩ := Aux.bdLoop_stream_bound P _ _ _ _ _ hl
+    unfold finishS at h
+    split at h
+    · rename_i p1 p2 rest'
+      split at h
+      · rename_i r' hf
+        simp at h
+        obtain ⟨rfl, rfl⟩ := h
+        refine ⟨pre ++ [.perm p1, .perm p2], by rw [hp]; simp, ?_⟩
+        unfold bdRun
+        rw [hall [.perm p1, .perm p2] _ (by simp)]
+        simp only
+        split at hf <;> rename_i hr <;> simp [hr, hf]
+      · simp at h
+    · simp at h
+
+/-- … and conversely: whatever follows in the stream is left untouched -/
+theorem bdRunS_of_direct (P : BDParams) (n0 : Nat) (used rest : List Draw) (r : SimResult) (h : bdRun P n0 used = .ok r) :
+    bdRunS P n0 (used ++ rest) = .ok (r, rest) := by
+  unfold bdRun at h
+  split at h
+  · simp at h
+  · rename_i s tl hl
+    obtain ⟨pre, hp, hall⟩ := Aux.bdLoop_stream_bound P _ _ _ _ _ hl
+    have htl : ∃ p1 p2, tl = [.perm p1, .perm p2] := by
+      split at h
+      · unfold finishRetain at h
+        split at h
+        · exact ⟨_, _, rfl⟩
+        · simp at h
+      · unfold finish at h
+        split at h
+        · simp at h
+        · split at h
+          · exact ⟨_, _, rfl⟩
+          · simp at h
+    obtain ⟨p1, p2, rfl⟩ := htl
+    unfold bdRunS
+    rw [hp, List.append_assoc, hall _ _ (by simp)]
+    simp only [finishS, List.cons_append, List.nil_append]
+    split at h
+    · rename_i hr; simp [hr, h]
+    · rename_i hr; simp [hr, h]
+
+/-- `k` direct runs of the simulator on consecutive segments, the namespace (when shared) growing from run to run -/
+def DirectRuns (P : BDParams) (shared : Bool) : Nat → List (List Draw) → List SimResult → Prop
+  | _, [], [] => True
+  | n0, seg :: segs, r :: rs => bdRun P n0 seg = .ok r ∧ DirectRuns P shared (if shared then max n0 r.tree.nLeaves else n0) segs rs
+  | _, _, _ => False
+
+/-- **`rand_trees` = n direct runs**: the wrapper returns `rs` and leaves `rest` of the generator's stream iff the stream splits
+into `k` consecutive segments followed by `rest`, and the simulator run directly on the `i`-th segment returns the `i`-th tree.
+Each replicate starts exactly where the previous one stopped; no draw is skipped, re-read or taken from elsewhere. -/
+theorem rand_trees_direct_runs (P : BDParams) (shared : Bool) : ∀ (k n0 : Nat) (ds rest : List Draw) (rs : List SimResult),
+    randTrees P shared k n0 ds = .ok (rs, rest) ↔
+      ∃ segs : List (List Draw), segs.length = k ∧ ds = segs.flatten ++ rest ∧ DirectRuns P shared n0 segs rs := by
+  intro k
+  induction k with
+  | zero =>
+    intro n0 ds rest rs
+    constructor
+    · intro h
+      simp [randTrees] at h
+      obtain ⟨rfl, rfl⟩ := h
+      exact ⟨[], rfl, by simp, trivial⟩
+    · rintro ⟨segs, hl, hd, hr⟩
+      cases segs with
+      | nil =>
+        cases rs with
+        | nil => simp at hd; simp [randTrees, hd]
+        | cons _ _ => simp [DirectRuns] at hr
+      | cons _ _ => simp at hl
+  | succ k ih =>
+    intro n0 ds rest rs
+    constructor
+    · intro h
+      unfold randTrees at h
+      split at h
+      · simp at h
+      · rename_i r mid h1
+        split at h
+        · simp at h
+        · rename_i rs' rest' h2
+          simp at h
+          obtain ⟨rfl, rfl⟩ := h
+          obtain ⟨used, hu, hrun⟩ := bdRunS_direct P n0 ds mid r h1
+          obtain ⟨segs, hl, hd, hr⟩ := (ih _ mid rest' rs').1 h2
+          exact ⟨used :: segs, by simp [hl], by rw [hu, hd]; simp, ⟨hrun, hr⟩⟩
+    · rintro ⟨segs, hl, hd, hr⟩
+      cases segs with
+      | nil => simp at hl
+      | cons seg segs =>
+        cases rs with
+        | nil => simp [DirectRuns] at hr
+        | cons r rs' =>
+          obtain ⟨hrun, hr'⟩ := hr
+          have h1 := bdRunS_of_direct P n0 seg (segs.flatten ++ rest) r hrun
+          have h2 := (ih (if shared then max n0 r.tree.nLeaves else n0) (segs.flatten ++ rest) rest rs').2
+            ⟨segs, by simpa using hl, rfl, hr'⟩
+          unfold randTrees
+          rw [hd]
+          simp only [List.flatten_cons, List.append_assoc, h1, h2]
+
+example : (randTrees { nTips := some 2, maxTime := none, b := 2, d := 1 } true 2 1
+    [.w 1, .u 1 8, .g 0, .g 0, .g 0, .g 0, .perm [0], .perm [1, 0], .w 3, .u 0 1, .g 0, .g 0, .g 0, .g 0, .perm [1, 0], .perm [0, 1], .w 9]).toOption.map
+    (fun r => (r.1.map (fun x => x.taxa), r.2)) = some ([[(1, 0), (0, 1)], [(0, 0), (1, 1)]], [.w 9]) := by decide
+
+
+namespace Aux
+theorem coalEvent_reads (τ : Int) (nodes nodes1 : List GT) (ds ds1 : List Draw) (h : coalEvent τ nodes ds = .ok (nodes1, ds1)) :
+    ∃ i j, ds = .samp i j :: ds1 ∧ i ≠ j ∧ i < nodes.length ∧ j < nodes.length := by
+  unfold coalEvent at h
+  simp only at h
+  split at h
+  · simp at h
+  · rename_i i j ds'
+    split at h
+    · rename_i a b ha hb
+      split at h
+      · simp at h
+      · rename_i hij
+        simp at h
+        obtain ⟨_, rfl⟩ := h
+        have hi := (List.getElem?_eq_some_iff.1 ha).1
+        have hj := (List.getElem?_eq_some_iff.1 hb).1
+        simp at hi hj hij
+        exact ⟨i, j, rfl, hij, hi, hj⟩
+    · simp at h
+  · simp at h
+
+theorem coalLoop_script (pop : Nat) : ∀ (f : Nat) (nodes nodes' : List GT) (rem' : Option Int) (ds rest : List Draw),
+    coalLoop pop f nodes none ds = .ok (nodes', rem', rest) →
+    ∃ ev, ds = coalScript ev ++ rest ∧ nodes'.length + ev.length = nodes.length ∧ ValidCoal nodes.length ev := by
+  intro f
+  induction f with
+  | zero =>
+    intro nodes nodes' rem' ds rest h
+    unfold coalLoop at h
+    split at h
+    · simp at h
+    · simp at h
+      obtain ⟨rfl, _, rfl⟩ := h
+      exact ⟨[], by simp [coalScript], by simp, trivial⟩
+  | succ f ih =>
+    intro nodes nodes' rem' ds rest h
+    unfold coalLoop at h
+    split at h
+    · simp at h
+      obtain ⟨rfl, _, rfl⟩ := h
+      exact ⟨[], by simp [coalScript], by simp, trivial⟩
+    · split at h
+      · simp at h
+      · rename_i w ds1
+        split at h
+        · simp at h
+        · rename_i hw
+          split at h
+          · split at h
+            · simp at h
+            · rename_i nodes1 ds2 hev
+              obtain ⟨i, j, hd1, hij, hi, hj⟩ := coalEvent_reads _ _ _ _ _ hev
+              have hlen := coalEvent_length _ _ _ _ _ hev
+              obtain ⟨ev, he, hl, hv⟩ := ih _ _ _ _ _ h
+              refine ⟨(w, i, j) :: ev, ?_, by simp; omega, ?_⟩
+              · rw [hd1, he]; simp [coalScript]
+              · refine ⟨by omega, hij, hi, hj, ?_⟩
+                have : nodes.length - 1 = nodes1.length := by omega
+                rw [this]; exact hv
+          · rename_i hwi; simp [withinPeriod] at hwi
+      · simp at h
+end Aux
+
+/-- **the draws `pure_kingman_tree` reads** (converse of `kingman_succeeds`): a successful run has read exactly `n − 1` events
+`(waiting time, pair)`, the `j`-th with two distinct positions inside a pool of `n − j` lineages (`ValidCoal`) — so the `j`-th call of
+`rng.expovariate` is made with `n − j` lineages, i.e. with rate `choose(n − j, 2)`: the list `kingRates n` -/
+theorem kingman_reads_valid_script (n pop : Nat) (ds : List Draw) (t : GT) (h : kingman n pop ds = .ok t) :
+    ∃ ev, ds = coalScript ev ∧ ev.length + 1 = n ∧ ValidCoal n ev ∧ (kingRates n).length = ev.length := by
+  unfold kingman at h
+  split at h
+  · simp at h
+  · rename_i t' hc
+    unfold coalesce at hc
+    split at hc
+    · simp at hc
+    · split at hc
+      · simp at hc
+      · rename_i nodes' rem dsr hl
+        obtain ⟨ev, he, hlen, hv⟩ := Aux.coalLoop_script pop _ _ _ _ _ _ hl
+        have hr : rem = none := by
+          cases rem with
+          | none => rfl
+          | some r =>
+            exfalso
+            have := Aux.coalLoop_none_len pop _ _ _ _ _ _ hl
+            simp at this
+        subst hr
+        simp at hc
+        obtain ⟨rfl, rfl⟩ := hc
+        simp at hlen hv he
+        exact ⟨ev, by simpa using he, by omega, hv, by simp [kingRates]; omega⟩
+  all_goals simp at h
+
+example : (kingRates 5) = [10, 6, 3, 1] := by decide
+
 end DendroModel.C18
